@@ -56,8 +56,14 @@ def one_case(rng, tier):
             ops.append([round(t, 3), rng.choice(['start', 'stop', 'stop', 'start', 'stopstart'])])
     n_items = rng.randrange(3, 12)
     none_at = sorted(rng.sample(range(n_items), rng.choice([1, 2]))) if rng.random() < 0.3 else []
-    return {'kind': kind, 'poll': poll, 'svc': svc, 'sink': rng.choice(['sync', 'coro']), 'ops': ops,
+    case = {'kind': kind, 'poll': poll, 'svc': svc, 'sink': rng.choice(['sync', 'coro']), 'ops': ops,
             'n_items': n_items, 'start_at_0': True, 'none_at': none_at}
+    if kind == 'from_textfile' and rng.random() < 0.4:
+        case['from_end'] = True         # the file already has content, which is not to be delivered: only what is appended later
+    if kind not in ('from_iterable', 'from_iterable_list') and rng.random() < 0.2:
+        # start()/stop() are called on the last node of source -> map_async -> sink: they travel up the pipeline to the source
+        case['via'] = 'map_async'
+    return case
 
 
 def check_case(case, counters, sets):
@@ -90,9 +96,11 @@ def check_case(case, counters, sets):
             elif kind == 'from_textfile':
                 tmp = tempfile.mkdtemp(prefix='c18-')
                 path = os.path.join(tmp, 'f.txt')
-                open(path, 'w').close()
+                with open(path, 'w') as pre:
+                    if case.get('from_end'):
+                        pre.write('-2\n-1\n')
                 fh = open(path)
-                src = Stream.from_textfile(fh, poll_interval=poll, asynchronous=True)
+                src = Stream.from_textfile(fh, poll_interval=poll, asynchronous=True, **({'from_end': True} if case.get('from_end') else {}))
                 wf = open(path, 'a')
 
                 def write_some():
@@ -240,20 +248,32 @@ def check_case(case, counters, sets):
                     k['n'] += 1
                     log.add('CALLED', 'sk', x, i)
                     log.add('END', 'sk', x, i)
-            src.sink(sink)
+            ctl = src
+            if case.get('via') == 'map_async':
+                async def ident(x):
+                    return x
+                ctl = src.map_async(ident).sink(sink)
+            else:
+                src.sink(sink)
 
             def do(op):
+                try:
+                    do_(op)
+                except Exception as ex:          # a lifecycle call that raises instead of taking effect (or being a no-op)
+                    log.add('CALL_RAISED', 'src', op, ex)
+
+            def do_(op):
                 if op == 'start':
                     log.add('START_CALL', 'src', bool(src.stopped))
-                    src.start()
+                    ctl.start()
                 elif op == 'stop':
                     log.add('STOP_CALL', 'src', bool(src.stopped))
-                    src.stop()
+                    ctl.stop()
                 else:
                     log.add('STOP_CALL', 'src', bool(src.stopped))
-                    src.stop()
+                    ctl.stop()
                     log.add('START_CALL', 'src', bool(src.stopped))
-                    src.start()
+                    ctl.start()
             do('start')
             for t, op in case['ops']:
                 loop.call_later(t, do, op)
@@ -278,6 +298,10 @@ def check_case(case, counters, sets):
     for name, msg, exc in errors:
         add('C18:loop-exception:%s' % (type(exc).__name__ if exc is not None else 'log'), '%s %s %r' % (name, msg[:200], exc))
     ev = log.ev
+    for e in ev:
+        if e[2] == 'CALL_RAISED':
+            add('C18:lifecycle-call-raised:%s@%s' % (type(e[5]).__name__, kind + ('-through-' + case['via'] if case.get('via') else '')),
+                '%s() at t=%s raised %r' % ('stop' if e[4] != 'start' else 'start', e[1], e[5]))
     # effective starts <-> runs
     eff_starts = [e for e in ev if e[2] == 'START_CALL' and e[4]]
     run_begins = [e for e in ev if e[2] == 'RUN_BEGIN']
@@ -356,7 +380,9 @@ def check_case(case, counters, sets):
     if restarts:
         counters['restart_histories'] = counters.get('restart_histories', 0) + 1
     counters['events_observed'] = counters.get('events_observed', 0) + len(ev)
-    sets.setdefault('source_kinds', set()).add(kind)
+    sets.setdefault('source_kinds', set()).add(kind + ('[from_end]' if case.get('from_end') else ''))
+    if case.get('via'):
+        counters['histories_driven_from_the_far_end_of_a_pipeline'] = counters.get('histories_driven_from_the_far_end_of_a_pipeline', 0) + 1
 
     class Res:
         pass
